@@ -43,6 +43,12 @@ func scanWheel(v *Variable[int, int]) []wheelPos {
 			}
 		}
 	}
+	// the list of timers that were due when they were scheduled: position <<0, 1>> (TimerWheel.tla: DueList)
+	if root := v.DueForVerif(); root != nil {
+		for n := root.NextExp(); !node.Equals(n, root); n = n.NextExp() {
+			out = append(out, wheelPos{n.Key(), 0, 1})
+		}
+	}
 	sort.Slice(out, func(i, j int) bool { return out[i].T < out[j].T })
 	return out
 }
@@ -73,7 +79,7 @@ func TestVerifWheel(t *testing.T) {
 	nm := node.NewManager[int, int](node.Config{WithExpiration: true})
 	// durations spread over all five levels (units of 2^20 ns: level boundaries at 2^16, 2^22, 2^27, 2^29)
 	durs := []int64{0, 1, 3, 700, 1023, 1024, 1025, 5000, 65535, 65536, 70000, 1 << 20, (1 << 22) - 1, 1 << 22, 5 << 22, (1 << 27) - 1, 1 << 27, 3 << 27, (1 << 29) - 1, 1 << 29, 3 << 28}
-	jumps := []int64{1, 1, 7, 500, 1023, 1024, 1025, 3000, 1 << 16, (1 << 16) + 5, 1 << 20, 1 << 22, 1 << 25, 1 << 27}
+	jumps := []int64{0, 0, 1, 1, 7, 500, 1023, 1024, 1025, 3000, 1 << 16, (1 << 16) + 5, 1 << 20, 1 << 22, 1 << 25, 1 << 27}
 	const ntimers = 8
 	for run := 0; run < nruns; run++ {
 		v := NewVariable(nm)
@@ -132,10 +138,11 @@ func TestVerifWheel(t *testing.T) {
 				if now+j >= (1 << 30) {
 					j = 0
 				}
-				if j == 0 {
+				if j == 0 && rng.Intn(2) == 0 {
 					rec.Tp, rec.T = "del", 0
 					break
 				}
+				// (j == 0: a maintenance run at an unchanged time - the wheel does not turn, timers that were due on arrival still fire)
 				now += j
 				v.DeleteExpired(now*wheelUnit, func(n node.Node[int, int], nowNanos int64) {
 					rec.Expired = append(rec.Expired, n.Key())
